@@ -7,7 +7,7 @@ RULE = ("a real Node (virtual clock with millisecond positions inside the second
         "999 ms into the second) arrives through ingest_manifest, through receive_chunk with the genuine replica bytes, or "
         "through handle_announce (advertised TTL 0, 1, min - 1, min, the manifest's own, larger, huge). Read back: manifest "
         "cached?, and the deadlines of the key-share record, the replica, the node's own announcement of the replica, and "
-        "the announcer's contact. A fourth path: an announce that assigns this node a shard, from a peer that cannot be reached "
+        "the announcer's contact. In 40% of the ingest records an earlier manifest for the SAME chunk id (expiring later, earlier, at the same time, or refused) was ingested just before: the key-share record must follow the newer manifest. A fourth path: an announce that assigns this node a shard, from a peer that cannot be reached "
         "(retry back-off 1, 3, 30, 45, 120 s): a pending fetch is created, the clock moves to 1 ms before / exactly / 1 ms / "
         "500 ms after the manifest's expiry, to around the end of the back-off, or anywhere, and the node ticks: read back "
         "whether the fetch is still pending. Oracle (independent of the model): a manifest that is expired or has less than min whole "
@@ -42,6 +42,11 @@ def generate(rng, tier):
                 left = rem * 1000 - frac
                 adv = rng.choice([0, left - 1, left, left + 1, left + 500, min(aux, 60) * 1000 - 1, min(aux, 60) * 1000, min(aux, 60) * 1000 + 1,
                                   left + min(aux, 60) * 1000, rng.randrange(0, max(1, 2 * abs(left) + 2000))])
+            elif path == 0 and rng.random() < 0.4:
+                # a second manifest for a chunk id the node already has one for (ingested just before, expiring aux seconds
+                # from the whole second -- later, earlier, equal, refused): the key-share record must follow the newer manifest
+                path = 4
+                aux = rng.choice([rem + 1, rem + 60, mx, 2 * mx, max(1, rem - 1), mn, mn + 1, rem, 0, rng.randrange(1, mx + 50)])
             ints += [path, rem, frac, max(0, adv), aux]
         cases.append({"ints": ints, "tag": "records"})
     return cases
@@ -59,7 +64,7 @@ def judge(case, impl, model):
     for i, (path, rem, frac, adv, aux) in enumerate(recs):
         acc, shards, replica, own, contact = impl[5 * i:5 * i + 5]
         left_ms = rem * 1000 - frac            # until the manifest expires
-        name = ["ingest", "receive", "announce", "announce-with-assigned-shard"][path]
+        name = ["ingest", "receive", "announce", "announce-with-assigned-shard", "ingest-after-an-earlier-manifest-for-the-same-chunk"][path]
         if path == 3:
             pend0, pend1, wait = replica, own, contact
             if left_ms <= 0 or left_ms // 1000 < mn:
@@ -77,6 +82,8 @@ def judge(case, impl, model):
             continue
         dls = {"key-share-record": shards, "replica": replica, "own-announcement": own, "announcer-contact": contact}
         if left_ms <= 0 or left_ms // 1000 < mn:
+            if path == 4:
+                continue        # the refused manifest leaves what the earlier one created (that one is judged as an ingest elsewhere)
             if acc or any(v != -1 for v in dls.values()):
                 return {"fail": f"C03|{name}-of-an-expired-or-too-short-lived-manifest-changed-state"}
             continue
